@@ -202,15 +202,19 @@ def maximalLoop (s : HG) : List PyId → List PyId → Option (List PyId)
 def maximalIds (s : HG) : Option (List PyId) :=
   (maximalLoop s s.edges []).map (fun acc => s.edges.filter (· ∈ acc))
 
-/-- `H = Hypergraph(); H.add_nodes_from(SC.nodes); H.add_edges_from([list(members(e)) for e in max_simplices])` -/
+/-- `H = Hypergraph(); H.add_nodes_from(SC.nodes);
+    H.add_edges_from({i: members(e) for i, e in enumerate(max_simplices)})` (dict format since /repo b705e12:
+    no format sniffing).  On the fresh network (no edges, counter 0) giving the i-th simplex the explicit ID i
+    and bumping the counter to i+1 is the same state transformer as taking the automatic ID, so the loop is
+    written with the automatic-ID item step. -/
 def fromMaxSimplices (cls : Cls) (s : HG) : HG × Outcome :=
   if cls ≠ .sc then (s, .err .lib) else
   match maximalIds s with
   | none => (s, .err .typeError)
   | some mx =>
     let r1 := addNodesFrom HG.empty (nodeBare s.nodes) []
-    andThen r1 (fun t => addEdgesFrom t .f1
-      (mx.map (fun e => { members := s.mem e, idx := none, attr := [] })) [])
+    andThen r1 (fun t => bulk (addEdgesItem .f1 [])  t
+      (mx.map (fun e => { members := s.mem e, idx := none, attr := [] })))
 
 /-! ### largest_connected_hypergraph
 
